@@ -543,6 +543,10 @@ def concat(dialect, parts, kind):
         if ent is not None and dialect == "cs":
             # the entries of one symbol vector, in order, stacked again: that symbol
             r.buf.prov, r.buf.symid, r.buf.is_var, r.symtype = (ent,), ent, True, getattr(seq, "symtype", None)
+        pent = getattr(seq, "permuted_entries_of", None)
+        if pent is not None and dialect == "cs":
+            # the entries of one symbol vector in some other order: purely symbolic, but not that symbol
+            r.buf.prov, r.buf.pure_stack, r.symtype = (pent,), True, getattr(seq, "symtype", None)
         return r
     parts = [freeze(p) for p in parts]
     offs = []
